@@ -704,7 +704,14 @@ func (p *Primary) getWALEntriesFromSequence(fromSequence uint64) ([]*wal.Entry, 
 	// Limit the number of entries to return to avoid overwhelming the network
 	maxEntriesToReturn := 100
 	if len(allEntries) > maxEntriesToReturn {
-		allEntries = allEntries[:maxEntriesToReturn]
+		// The entries of one transaction share a sequence number and the
+		// replica resumes from the sequence after the last one it received:
+		// never cut between entries of the same sequence
+		cut := maxEntriesToReturn
+		for cut < len(allEntries) && allEntries[cut].SequenceNumber == allEntries[cut-1].SequenceNumber {
+			cut++
+		}
+		allEntries = allEntries[:cut]
 		log.Info("Limited entries to %d for network efficiency", maxEntriesToReturn)
 	}
 
